@@ -311,8 +311,12 @@ def breakCyclesWith (fuel : Nat) (ext : BreakExt) (m : Mat) (root : Option (List
         | .ok true => breakDirected fuel ext m root
         | .ok false => .ok (breakUndirected fuel ext m root)
 
+/-- the fuel handed to the traversals by `breakCycles` (several sub-roots may be stacked at once) -/
+def breakFuel (m : Mat) : Nat :=
+  (maxOf ((List.range m.nRow).map fun i => (m.adj i).length) + m.nRow + 2) ^ (m.nRow + 1)
+
 def breakCycles (ext : BreakExt) (m : Mat) (root : Option (List Nat)) (directed : Option Bool) :
     Except PyErr BreakOut :=
-  breakCyclesWith (cyclesFuel m) ext m root directed
+  breakCyclesWith (breakFuel m) ext m root directed
 
 end SkNet.Cycles
